@@ -38,6 +38,10 @@ CHECKS = {
    text='Two generated projects (3 and 4 apps with cross-app FK/M2M, self M2M, custom db_table names that are prefixes of each other) x every dependency-closed non-empty subset of apps removed from the installed set x {--purge, no purge} x {evolve command, Evolver.queue_purge_old_apps}: the dropped tables must be exactly the tables owned by the removed apps incl. their M2M tables, every other table must be byte-identical (sqlite_master entries and rows), the stored signature must lose exactly those apps, and without --purge nothing may change; plus every DeleteModel/DeleteApplication sequence to depth 2/3 through the bare AppMutator under the C01 oracle.',
    note='Only dependency-closed subsets can be removed from INSTALLED_APPS (Django itself would not start otherwise).',
    design='3/C15'),
+ 'C16': dict(level='exploration', technique='exhaustive enumeration of router configurations x evolutions x evolve orders on two real SQLite databases through Evolver(database_name=...)',
+   text='A three-model app under ALL 8 assignments of its models to the databases default/other (harness router answering allow_migrate and db_for_write), every evolution of an 8-letter alphabet up to length 1 (quick) / 2 (thorough) that names models on both sides, both evolve orders, evolutions discovered the normal way plus one run with in-memory evolutions: each database must hold exactly the routed models (schema equal to what Django creates for that subset), its stored signature must list exactly those models, the run must succeed, and the database not being evolved must be byte-identical before and after.',
+   note='Models on different databases are unrelated (no cross-database FKs).',
+   design='3/C16'),
  'C17': dict(level='fault_enumeration', technique='acceptor over the interleaved signal/statement log of every fault-free and every faulted run of the C07 enumeration plus no-op and two-app runs',
    text='A small acceptor checks every run: evolving at most once and before any change; exactly one of evolved/evolving_failed, evolved only after the version row is saved and after the last change; applying_*/creating_models paired with their counterparts unless the run fails in between; every non-bookkeeping effect statement lies between a pair; _evolve_lock restored.',
    note='Deferred index SQL for new models and PRAGMA statements are not attributed to a signal pair; migration signals are exercised by C10.',
